@@ -55,7 +55,7 @@ CFGS = {
     "agt-lk": C(Tables=["agt"], AgtKeys=["a", "c"], Orig=["a", "c"], Peer=["p", "q"], Seqs=[0],
                 PathKinds=["clean"], MaxEntries=3, Aging=False),
     "cidr-mt": C(Tables=["cidr"], CidrKeys="K_cidr_mt", CidrQ="Q_cidr", PathKinds=["clean", "loop", "none"]),
-    "dom-mt": C(Tables=["dom"], DomKeys="K_dom_mt", DomQ="Q_dom", Orig=["p"]),
+    "dom-mt": C(Tables=["dom"], DomKeys="K_dom_mtW", DomQ="Q_dom"),   # (the exact map with two routes per key: dom-loc)
     "fwd-mt": C(Tables=["fwd"], FwdKeys=["web"]),
     "agt-mt": C(Tables=["agt"], AgtKeys=["a"], Orig=["a"], MaxEntries=2),
     "cidr-loc": C(Tables=["cidr"], CidrKeys="K_cidr_mtT", CidrQ="Q_cidr", Orig=["a"], Peer=["p"], Metrics=[0], Seqs=[1],
@@ -231,7 +231,7 @@ def build_graph(name, res):
     agents = sorted(set(c["Orig"]) | set(c["Peer"]) | set(c["AgtKeys"]) - {"L"})
     nedges = sum(len(g["alts"]) for gs in groups.values() for g in gs.values())
     nondet = sum(1 for gs in groups.values() for g in gs.values() if len(g["alts"]) > 1)
-    return {"name": name, "w": 2, "agents": agents, "orig_has_l": "L" in c["Orig"], "casevars": c["CaseVars"],
+    return {"name": name, "w": 2, "agents": agents, "orig_has_l": "L" in c["Orig"], "nseq": max(c["Seqs"]) + 1, "casevars": c["CaseVars"],
             "nodes": nodes, "init": init[0], "out": out, "lk": lk}, nedges, nondet
 
 
@@ -269,6 +269,26 @@ def replay(ctx, results):
     return summ, r.of("mismatch"), r.of("lkmismatch"), {"edges": nedges, "nondet_groups": nondet}
 
 
+def cleanup_behind_fresh_head(results):
+    """Tables for which the replayed graphs contain the case `Cleanup removes a stale foreign route that sits behind a
+    fresh lowest-metric route of the same key` (the head of the key's slice survives, a later element must go)."""
+    found = set()
+    for r in results.values():
+        for e in r.edges:
+            a = e["a"]
+            if a.get("act") != "Cleanup" or not a.get("res"):
+                continue
+            tb = a["tbl"]
+            before, after = e["s"][tb], [vf.canon(x) for x in e["t"][tb]]
+            for x in before:
+                if not x["old"] or x["origin"] == "L" or vf.canon(x) in after:
+                    continue
+                same = [y for y in before if vf.canon(y["key"]) == vf.canon(x["key"]) and y is not x]
+                if any(not y["old"] and y["metric"] <= x["metric"] and vf.canon(y) in after for y in same):
+                    found.add(tb)
+    return found
+
+
 def lk_kind(mm):
     if mm["real"] == "nothing":
         return "missed"
@@ -283,9 +303,10 @@ def report_replay(ctx, pid, mism, lkmism):
     for mm in mism:
         a = mm["a"]
         key = "RouteTable:%s:%s" % (a["act"], a.get("tbl") or {"C": "cidr", "D": "dom", "F": "fwd"}.get(a["act"][-4:-3], "cidr"))
-        what = "routing.Manager %s %s in state [%s]: real result %s, real state [%s]; the spec allows %s" % (
-            a["act"], json.dumps({k: v for k, v in a.items() if k != "act"}), mm["s"], mm["real_res"], mm["real_t"],
-            json.dumps(mm["spec"]))
+        what = "routing.Manager %s %s in state [%s]: real result %s, real state [%s]; the spec allows %s (real sequence " \
+               "values of the abstract ones: %s)" % (
+                   a["act"], json.dumps({k: v for k, v in a.items() if k != "act"}), mm["s"], mm["real_res"], mm["real_t"],
+                   json.dumps(mm["spec"]), mm.get("real_sequence_of_abstract"))
         if pid == "C10":
             ctx.finding(key, what, mm)
         else:
